@@ -1496,8 +1496,7 @@ if sql:
       setdefault.__doc__ = dict.setdefault.__doc__
       def update(self, adict=(), **kwds):
           if hasattr(adict,'__asdict__'): adict = adict.__asdict__()
-          elif hasattr(adict, 'copy'): adict = adict.copy()
-          else: adict = dict(adict)
+          else: adict = dict(adict) # a copy; also accepts (key,value) pairs
           adict.update(**kwds)
           [self.__setitem__(k,v) for (k,v) in adict.items()]
           return #XXX: should do the above all at once, and more efficiently
@@ -1723,8 +1722,7 @@ else:
       setdefault.__doc__ = dict.setdefault.__doc__
       def update(self, adict=(), **kwds):
           if hasattr(adict,'__asdict__'): adict = adict.__asdict__()
-          elif hasattr(adict, 'copy'): adict = adict.copy()
-          else: adict = dict(adict)
+          else: adict = dict(adict) # a copy; also accepts (key,value) pairs
           adict.update(**kwds)
           [self.__setitem__(k,v) for (k,v) in adict.items()]
           return
